@@ -73,7 +73,7 @@ pub fn run_case(ctx: &mut CaseCtx) -> CaseResult {
     let mut comparisons = 0u64;
     let mut failed_push_before = false;
 
-    let mut compare = |res: &mut CaseResult,
+    let compare = |res: &mut CaseResult,
                        active: &MSpec,
                        all: &[MSpec],
                        when: &str,
